@@ -6,6 +6,7 @@ open Storrent Storrent.Drive.ReaderSim
 def step (s : DState) (ws : List String) : DState × String :=
   match ws with
   | ["x", _] => (s, "x")
+  | "rdx" :: _ => (s, "x")   -- oracle-only ops (held event loop, concurrent FUSE reads)
   | _ =>
     match ReaderSim.step s ws with
     | some r => r
